@@ -327,4 +327,23 @@ theorem runOps_spec (q : Req) (C : List Rule) (allow : Bool) (c : Nat) (done : L
     rw [ih]
     rfl
 
+/-- A sequence of observer calls with a response code per call. -/
+theorem runOpsC_spec (q : Req) (C : List Rule) (allow : Bool) (done : List RuleId)
+    (ops : List (Op × Nat)) :
+    runOpsC allow (withApplied (Spec.action q C) (dedupLast done)) ops =
+      Spec.observeC q C allow done ops := by
+  induction ops generalizing done with
+  | nil => rfl
+  | cons oc ops ih =>
+    obtain ⟨op, c⟩ := oc
+    simp only [runOpsC, Spec.observeC, runOp_spec]
+    rw [ih]
+    rfl
+
+theorem runOps_eq_runOpsC (allow : Bool) (c : Nat) (a : Action) (ops : List Op) :
+    runOps allow c a ops = runOpsC allow a (ops.map fun op => (op, c)) := by
+  induction ops generalizing a with
+  | nil => rfl
+  | cons op ops ih => simp only [runOps, runOpsC, List.map_cons, ih]
+
 end Rio.Action
